@@ -125,8 +125,9 @@ func rprop(f func(ConstVector) (MagicScalar, error), x0 ConstVector, step_init f
         }
       }
     }
-    for {
+    for reduced := false; ; reduced = true {
       // update x
+      moved := false
       for i := 0; i < x1.Dim(); i++ {
         if gradient_new[i] != 0.0 {
           if gradient_new[i] > 0.0 {
@@ -138,6 +139,16 @@ func rprop(f func(ConstVector) (MagicScalar, error), x0 ConstVector, step_init f
         if math.IsNaN(x2.At(i).GetFloat64()) {
           return x2, fmt.Errorf("NaN value detected")
         }
+        // a change by a few units in the last place is no progress
+        if a, b := x1.Float64At(i), x2.Float64At(i); math.Abs(a - b) > 4.0*2.220446e-16*math.Max(math.Abs(a), math.Abs(b)) + 2.225074e-308 {
+          moved = true
+        }
+      }
+      // stop if the step size had to be reduced until the position does
+      // not change anymore (otherwise the same point is accepted as a valid
+      // update and the search never ends)
+      if reduced && !moved {
+        return x1, fmt.Errorf("objective function cannot be evaluated in the neighborhood of %v", x1)
       }
       // evaluate objective function
       if err := x2.Variables(1); err != nil {
